@@ -16,7 +16,7 @@ RULE = ("random glyph-name sets (suffixes, ligature underscores, names colliding
 ASSUMPTIONS = ["names are compared as code point sequences", "static fonts; the variable-font path uses the same PostProcessor (covered by C10 cases with production names)"]
 
 POOL = [("A", 0x41), ("B", 0x42), ("a", 0x61), ("a.alt", None), ("a.sc", None), ("f", 0x66), ("i", 0x69), ("f_i", None), ("f_i.alt", None),
-        ("uni0041", None), ("uni0041.1", None), ("A.1", None), ("A.1.1", None), ("x" * 70, None), ("emoji", 0x1F600), ("e_moji", None),
+        ("uni0041", None), ("uni0041.1", None), ("A.1", None), ("A.1.1", None), ("x" * 70, None), ("emoji", 0x1F600), ("e_moji", None), ("f_emoji", None), ("emoji_f_i", None), ("emoji_emoji.alt", None),
         ("space", 0x20), ("f_f_i", None), ("a-b", None), ("f-i.alt", None), ("c+d", 0x63), ("Aring-ko", 0xC5), ("a_a.alt", None), ("Aacute", 0xC1), ("Aacute.ss01", None)]
 PS_VALUES = ["Alpha", "Alpha", "Alpha.1", "uni0041", "we!rd(name)", "", "x" * 70, "A", "A.1", "B", "ok_name", "é", "a.alt"]
 
@@ -31,6 +31,12 @@ def cases(tier, seed):
     out = []
     for k in range(n):
         items = rng.sample(POOL, rng.randint(3, 10))
+        nonbmp_liga = rng.random() < 0.25
+        if nonbmp_liga:
+            # ligatures with a part outside the BMP (such a name cannot use the compact uniXXXXYYYY form)
+            want = [("emoji", 0x1F600), ("f", 0x66), rng.choice([("f_emoji", None), ("emoji_f_i", None), ("emoji_emoji.alt", None)])] + ([("i", 0x69)] if rng.random() < 0.7 else [])
+            items = [it for it in items if it[0] not in {w[0] for w in want}] + want
+            rng.shuffle(items)
         if rng.random() < 0.3:
             # a chain of collisions: X gets the generated name N, Y is literally named N (made unique as N.1) and a glyph
             # literally named N.1 comes later still (and sometimes N.1.1 / N.2 after that)
@@ -51,6 +57,8 @@ def cases(tier, seed):
                                              for nm in names if rng.random() < 0.7}
         elif r < 0.65:
             lib["public.postscriptNames"] = {}
+        if nonbmp_liga and rng.random() < 0.7:
+            lib.pop("public.postscriptNames", None)       # names are then derived from the code points
         kwargs_on = {}
         mode = rng.choice(["arg", "arg", "lib-true", "lib-false", "glyphs-legacy", "default", "keepnames-false"])
         if mode == "arg":
